@@ -258,12 +258,19 @@ package jsonpatch
 //@   modifies region(lazyNode.which), region(lazyNode.doc), region(lazyNode.ary)
 //@   ensures[C18,C19] stable: rStable()
 //@   ensures[C19] absent-operand: o == nil ==> !result
+//@   ensures[C19] object-vs-array: o != nil && old(n.raw != nil && o.raw != nil && n.which == eRaw && o.which == eRaw && wf(*n.raw) && wf(*o.raw) && kind(val(*n.raw)) == KObj && kind(val(*o.raw)) == KArr) ==> !result
+//@   ensures[C19] array-vs-object: o != nil && old(n.raw != nil && o.raw != nil && n.which == eRaw && o.which == eRaw && wf(*n.raw) && wf(*o.raw) && kind(val(*n.raw)) == KArr && kind(val(*o.raw)) == KObj) ==> !result
+//@   ensures[C19] scalars-by-compact-text: o != nil && old(n.raw != nil && o.raw != nil && n.which == eRaw && o.which == eRaw && wf(*n.raw) && wf(*o.raw) && kind(val(*n.raw)) != KObj && kind(val(*n.raw)) != KArr && kind(val(*n.raw)) != KNull && kind(val(*o.raw)) != KObj && kind(val(*o.raw)) != KArr && kind(val(*o.raw)) != KNull) ==> (result <==> old(compactOf(bytes(*n.raw)) == compactOf(bytes(*o.raw))))
+//@   ensures[C19] objects-same-members: o != nil && result && n.which == eDoc ==> o.which == eDoc && len(n.doc) == len(o.doc) && (forall k string {domsel(n.doc, k)} :: k in n.doc ==> k in o.doc && ((n.doc[k] == nil) <==> (o.doc[k] == nil)))
+//@   ensures[C19] arrays-same-shape: o != nil && result && n.which == eAry ==> o.which == eAry && len(n.ary) == len(o.ary) && (forall i int {n.ary[i]} :: 0 <= i && i < len(n.ary) ==> ((n.ary[i] == nil) <==> (o.ary[i] == nil)))
 //@   loop 1
 //@   invariant stable: rStable()
 //@   invariant both-objects: n.which == eDoc && o != nil && o.which == eDoc && n.doc == atentry(n.doc) && o.doc == atentry(o.doc)
+//@   invariant members-so-far: len(n.doc) == len(o.doc) && (forall k string {domsel(n.doc, k)} :: k in n.doc && visited(k) ==> k in o.doc && ((n.doc[k] == nil) <==> (o.doc[k] == nil)))
 //@   loop 2
 //@   invariant stable: rStable()
 //@   invariant both-arrays: n.which == eAry && o != nil && o.which == eAry && len(n.ary) == len(o.ary) && n.ary == atentry(n.ary) && o.ary == atentry(o.ary)
+//@   invariant elements-so-far: forall i int {n.ary[i]} :: 0 <= i && i <= rangeindex ==> ((n.ary[i] == nil) <==> (o.ary[i] == nil))
 
 //@ func Equal
 //@   modifies region(lazyNode.which), region(lazyNode.doc), region(lazyNode.ary), region(lazyNode.raw), region(elem *lazyNode), region(map map[string]*lazyNode), region(cell int64), region(cell container), region(cell any), ghost(BufContent)
